@@ -19,6 +19,8 @@ MAP = [
     ("R10.3", "", "2fa902b", "subline_by heading text bypassed the escaper"),
     ("R12.1", "", "a08bc1a", "multi-section and figure documents resolved colour indices without a document colour context (\\cf552 next to a 2-entry table)"),
     ("R14.1", "", "a08bc1a", "an exception during encode left the colour context of the failed document behind"),
+    ("R14.7", "", "a08bc1a", "colour context left behind by a failed encode is read by the next encode on the multi-section/figure paths"),
+    ("R19.1", "cell_justification", "70cb1b6", "cell_justification 'j'/'d' accepted at construction, ValueError at encode (validated against the wrong table)"),
     ("R14.5", "", "fc01838", "colour context kept in an attribute of the module-level ColorService singleton"),
     ("R15.1", "", "fc01838", "two threads encoding different documents overwrote each other's colour context"),
     ("R13.1", "", "c2970ae", "group_by: first value after a null key blanked (!= with shifted column yields null)"),
